@@ -114,14 +114,18 @@ def _replay(r):
         except Exception:
             pass
     try:
+        st_ = np.int64(r["start"]) if (r.get("np_start") and r.get("start") is not None) else r.get("start")
         if fn == "substitute":
-            Y = ersatz.substitute(X, _mk_motif(r["motif"], A, alphabet), start=r["start"], alphabet=alphabet)
+            Y = ersatz.substitute(X, _mk_motif(r["motif"], A, alphabet), start=st_, alphabet=alphabet)
         elif fn == "insert":
-            Y = ersatz.insert(X, _mk_motif(r["motif"], A, alphabet), start=r["start"], alphabet=alphabet)
+            Y = ersatz.insert(X, _mk_motif(r["motif"], A, alphabet), start=st_, alphabet=alphabet)
         elif fn == "delete":
             Y = ersatz.delete(X, r["start"], r["end"])
         elif fn == "multisubstitute":
-            Y = ersatz.multisubstitute(X, [_mk_motif(m, A, alphabet) for m in r["motifs"]], r["spacing"], start=r["start"], alphabet=alphabet)
+            spc = r["spacing"]
+            Y = ersatz.multisubstitute(X, [_mk_motif(m, A, alphabet) for m in r["motifs"]], spc, start=r["start"], alphabet=alphabet)
+            if isinstance(spc, list):          # second call with the very same list object
+                Y = ersatz.multisubstitute(X, [_mk_motif(m, A, alphabet) for m in r["motifs"]], spc, start=r["start"], alphabet=alphabet)
         elif fn == "randomize":
             Y = ersatz.randomize(X, r["start"], r["end"], probs=[[1.0 / A] * A], n=r["n"], random_state=r.get("seed", 0))
     except Exception as e:
@@ -268,7 +272,10 @@ def worker(cfg):
             mo, mc = _motif(ctx, "m", kind, MB, A, w, alphabet)
             ins["motif"] = lambda m: {"kind": kind, "chars": C.eval_chars(m, mc)}
             ins["start"] = lambda m: core.model_value(m, start)
-            call = lambda: getattr(ers, fn)(X, mo, start=start, alphabet=alphabet)
+            start_arg = core.SNpInt(start.z) if cfg.get("np_start") else start          # numpy.int64 start (from arange / argmax / a DataFrame column)
+            if cfg.get("np_start"):
+                ctx.assume(s_and(start >= -L - 3, start <= 2 * L + 3))
+            call = lambda: getattr(ers, fn)(X, mo, start=start_arg, alphabet=alphabet)
             if fn == "substitute":
                 inside = s_and(start >= 0, start + w <= L)
                 strict = False
@@ -311,7 +318,11 @@ def worker(cfg):
                 st = start
                 p0 = start
                 ins["start"] = lambda m: core.model_value(m, start)
-            call = lambda: ers.multisubstitute(X, ms, sp, start=st, alphabet=alphabet)
+            if cfg["spacing"] == "list":
+                # the caller re-uses its spacing list for a second call: same answer (arguments are not consumed)
+                call = lambda: (ers.multisubstitute(X, ms, sp, start=st, alphabet=alphabet), ers.multisubstitute(X, ms, sp, start=st, alphabet=alphabet))[1]
+            else:
+                call = lambda: ers.multisubstitute(X, ms, sp, start=st, alphabet=alphabet)
             conds = [s >= 0 for s in sps]
             p = p0
             pos = []
@@ -414,6 +425,9 @@ def configs(tier):
                     if tier == "quick" and B == 2 and L == 5 and w == 3 and A == 4 and MB == 1:
                         pass
                     cf.append(dict(fn=fn, A=A, L=L, w=w, B=B, MB=MB, kind=kind, expect_no_return=(w > L)))
+    for fn in ("substitute", "insert"):
+        for L, w in ((3, 1), (3, 2)) if tier == "quick" else ((3, 1), (3, 2), (5, 3), (2, 2)):
+            cf.append(dict(fn=fn, A=2, L=L, w=w, B=1, MB=1, kind="ohe", np_start=True))
     for A, L, B in itertools.product(As, Ls, Bs):
         cf.append(dict(fn="delete", A=A, L=L, B=B))
         for n in ((1, 2) if tier == "quick" else (1, 2, 3)):
